@@ -141,3 +141,19 @@ Section Model.
     then mresolve limit (flat_map (arg_bounds d) args)
     else Err.
 End Model.
+
+(* ---- bound generation beyond the bare type variable ----
+   TypeVarValue.can_be_assigned(left) for a non-typevar `left` (a callback's parameter
+   type checked against T): UpperBound(left) plus the inherent bounds *)
+Definition callback_bounds {V : Type} (d : @decl V) (left : V) : list (bound V) :=
+  UpperBound left :: inherent d.
+
+(* value.intersect_bounds_maps, for one type variable: the bounds each accepting
+   alternative of a union annotation produced for it.  One distinct list is kept as it
+   is; several distinct lists collapse into a single OrBound — which `solve` ignores *)
+Definition intersect_bounds {V : Type} (O : ops V) (alts : list (list (bound V))) : list (bound V) :=
+  match dedup (list_eqb (bound_eqb O)) alts with
+  | [] => []
+  | [one] => one
+  | _ => [OrBound]
+  end.
